@@ -8,7 +8,10 @@
 (*            action per script element.  Header().Set touches tw.h        *)
 (*            without the lock; WriteHeader / Write are the bodies of      *)
 (*            timeoutWriter.WriteHeader / Write under tw.mu (lines         *)
-(*            142-178); Finish = close(done); Panic = recovered by         *)
+(*            142-178); Finish = close(done); Panic (also: WriteHeader     *)
+(*            with an invalid code, which panics in checkWriteHeaderCode   *)
+(*            before touching any field and, the Unlock being deferred,    *)
+(*            leaves tw.mu free) = recovered by                            *)
 (*            RecoverHandler, which calls tw.WriteHeader(500) and returns  *)
 (*            (so done is closed), or - RecoverInside = FALSE - sent to    *)
 (*            panicChan by the deferred recover of the goroutine.          *)
@@ -59,7 +62,7 @@ N == Len(steps)
 
 Init ==
   /\ steps \in SG!Scripts(MaxSteps)
-  /\ term \in SG!Terms
+  /\ term \in SG!Terms \cup {"bad0"}       \* the invalid codes are interchangeable here
   /\ hpc = 0 /\ recovering = FALSE
   /\ h = {} /\ wbuf = <<>> /\ code = 0 /\ wroteHeader = FALSE /\ timedOut = FALSE
   /\ doneCh = FALSE /\ panicCh = FALSE
@@ -99,8 +102,8 @@ HandlerEnd ==
   /\ hpc = N /\ ~recovering
   /\ hpc' = N + 1
   /\ CASE term = "finish" -> doneCh' = TRUE /\ UNCHANGED <<panicCh, recovering>>
-       [] term = "panic" /\ RecoverInside  -> recovering' = TRUE /\ UNCHANGED <<doneCh, panicCh>>
-       [] term = "panic" /\ ~RecoverInside -> panicCh' = TRUE /\ UNCHANGED <<doneCh, recovering>>
+       [] SG!Panics(term) /\ RecoverInside  -> recovering' = TRUE /\ UNCHANGED <<doneCh, panicCh>>
+       [] SG!Panics(term) /\ ~RecoverInside -> panicCh' = TRUE /\ UNCHANGED <<doneCh, recovering>>
   /\ UNCHANGED <<steps, term, h, wbuf, code, wroteHeader, timedOut, ctx, spc, under, selDone, selFired>>
 
 \* RecoverHandler: w.WriteHeader(500) on the timeoutWriter, then it returns normally: close(done)
